@@ -36,11 +36,18 @@ def kwargs_of(opts):
     return kw
 
 
-def one(x, y, w, c, grid, maxiter, kw=None):
+def one(x, y, w, c, grid, maxiter, kw=None, report=None):
+    """x, y, w are handed to iterfit AS THEY ARE (caller-owned arrays); afterwards they must be bit-identical to the
+    snapshots taken before the call (report['args_mutated'])"""
+    snap = (x.copy(), y.copy(), w.copy())
     with warnings.catch_warnings():
         warnings.simplefilter('ignore')
-        sset, outmask = iterfit(x.copy(), y.copy(), invvar=w.copy(), upper=c['upper'], lower=c['lower'],
+        sset, outmask = iterfit(x, y, invvar=w, upper=c['upper'], lower=c['lower'],
                                 maxiter=maxiter, **(kw if kw is not None else kwargs_of(c['opts'])))
+        if report is not None:
+            report['args_mutated'] = [nm for nm, a, b in (('xdata', x, snap[0]), ('ydata', y, snap[1]), ('invvar', w, snap[2]))
+                                      if not (a.dtype == b.dtype and np.array_equal(a, b, equal_nan=True))]
+            report['result_aliases_arg'] = bool(isinstance(outmask, np.ndarray) and any(np.shares_memory(outmask, a) for a in (x, y, w)))
         if not isinstance(sset.coeff, np.ndarray):
             # iterfit gave up (<= 1 good point left: `sset.coeff = 0`): nothing to evaluate
             return sset, np.asarray(outmask), None
@@ -50,22 +57,29 @@ def one(x, y, w, c, grid, maxiter, kw=None):
 
 def call(c):
     x0 = np.array(c['x'], dtype='d')
-    y0 = np.array(c['y'], dtype='d')
-    w0 = np.array(c['w'], dtype='d')
+    y0 = np.array(c['y'], dtype='d').astype(c.get('ydtype', 'd'))      # int32 / int64 / float32 data: values exactly representable
+    w0 = np.array(c['w'], dtype='d').astype(c.get('wdtype', 'd'))
     grid = np.array(c['grid'], dtype='d')
     runs = []
+    # the SAME three ndarray objects are refilled in place for every permutation (a reused input buffer)
+    xb, yb, wb = np.empty_like(x0), np.empty_like(y0), np.empty_like(w0)
     for p in c['perms']:
         p = np.array(p, dtype=int)
-        x, y, w = x0[p], y0[p], w0[p]
+        x = x0[p]
+        np.copyto(xb, x0[p])
+        np.copyto(yb, y0[p])
+        np.copyto(wb, w0[p])
         try:
-            sset, outmask, curve = one(x, y, w, c, grid, int(c['maxiter']))
+            rep = {}
+            sset, outmask, curve = one(xb, yb, wb, c, grid, int(c['maxiter']), report=rep)
             if curve is None:
                 runs.append({'degenerate': True, 'mask': [bool(v) for v in np.atleast_1d(outmask)]})
                 continue
             runs.append({'argsort': [int(i) for i in x.argsort()], 'mask': [bool(v) for v in outmask],
                          'mask_shape_ok': outmask.shape == x.shape, 'bk': fl(sset.breakpoints),
                          'bkmask_all': bool(np.all(sset.mask)), 'curve': fl(curve),
-                         'finite': bool(np.all(np.isfinite(curve)))})
+                         'finite': bool(np.all(np.isfinite(curve))), 'args_mutated': rep.get('args_mutated', []),
+                         'result_aliases_arg': rep.get('result_aliases_arg', False)})
         except Exception as e:  # noqa: BLE001
             runs.append(err(e, 'iterfit'))
     out = {'runs': runs}
@@ -88,6 +102,15 @@ def call(c):
                             'mask_longer': [bool(v) for v in om3], 'curve_longer': fl(curve3)}
         except Exception as e:  # noqa: BLE001
             out['refit'] = err(e, 'refit')
+    if c.get('scale') and 'err' not in r0 and 'degenerate' not in r0:
+        # the same data in other units: y * s, invvar / s^2 (first permutation, fresh arrays)
+        try:
+            sc = float(c['scale'])
+            p = np.array(c['perms'][0], dtype=int)
+            _s4, om4, curve4 = one(x0[p], y0[p].astype('d') * sc, w0[p].astype('d') / (sc * sc), c, grid, int(c['maxiter']))
+            out['scaled'] = {'mask': [bool(v) for v in np.atleast_1d(om4)], 'curve': None if curve4 is None else fl(curve4)}
+        except Exception as e:  # noqa: BLE001
+            out['scaled'] = err(e, 'iterfit')
     return out
 
 
